@@ -698,6 +698,12 @@ func SpecContains(s string, sub string) bool { return false }
 //@ pred markerKey(k string): SpecHasPrefix(k, "redis-gunyu-bisync:") && SpecContains(k, ":marker:{")
 //@ pred markerSet(c bisyncAofCommand): SpecLower(c.Cmd) == "set" && len(c.Args) >= 2 && markerKey(string(c.Args[0]))
 //@ pred markerExpiry(c bisyncAofCommand): delLike(c.Cmd) && len(c.Args) == 1 && markerKey(string(c.Args[0]))
+//@ func isBisyncMarkerExpiry
+//@   arith int
+//@   properties C13
+//@   modifies nothing
+//@   ensures exact: result <==> markerExpiry(cmd)
+
 //@ func isBisyncMirroredTransaction
 //@   arith int
 //@   properties C13
@@ -706,6 +712,8 @@ func SpecContains(s string, sub string) bool { return false }
 //@   ensures foreign_transaction_never_suppressed: result ==> len(cmds) > 0 && len(cmds[0].Args) >= 1 && SpecNsKey(string(cmds[0].Args[0]))
 //@   ensures suppressed_only_with_a_marker_behind_removals_of_expired_markers: result ==> (exists i int :: 0 <= i && i < len(cmds) && markerSet(cmds[i]) && (forall j int :: 0 <= j && j < i ==> markerExpiry(cmds[j])))
 //@   ensures mirrored_recognised_after_its_expired_marker_was_removed: len(cmds) >= 2 && markerExpiry(cmds[0]) && markerSet(cmds[1]) ==> result
+//@   loop 1:
+//@     invariant only_removals_of_expired_markers_so_far: 0 - 1 <= rangeindex && rangeindex < len(cmds) && (forall j int :: 0 <= j && j <= rangeindex ==> markerExpiry(cmds[j]) && !markerSet(cmds[j]))
 //@   ensures mirrored_recognised: len(cmds) > 0 && SpecLower(cmds[0].Cmd) == "set" && len(cmds[0].Args) >= 2 && SpecHasPrefix(string(cmds[0].Args[0]), "redis-gunyu-bisync:") && SpecContains(string(cmds[0].Args[0]), ":marker:{") ==> result
 
 // ---- bidirectional sync: the replay-unit parser loses no foreign command (C13) -----------
